@@ -42,7 +42,7 @@ class Slot:
 class Tab:
     """slots + column names + whether positions are meaningful."""
 
-    __slots__ = ("slots", "cols", "ordered", "det", "dropped", "sliced")
+    __slots__ = ("slots", "cols", "ordered", "det", "dropped", "sliced", "okeys")
 
     def __init__(self, slots, cols, ordered=True, det=True, dropped=False):
         self.slots = list(slots)
@@ -51,6 +51,7 @@ class Tab:
         # SQL-mode bookkeeping (DESIGN 2.4 determinacy): `det` = the order is a function of the data
         # (total up to identical rows); `dropped` = a projection removed a column since the sort.
         self.det = det
+        self.okeys = frozenset()  # bare columns among the terms of the (stably composed) sorts that define the current order
         self.dropped = dropped
         self.sliced = False  # a slice was applied since the sort (later non-total sorts cannot merge with it)
 
